@@ -67,6 +67,24 @@ func (c *Ctx) handshakeFn() (*ssa.Function, ssa.CallInstruction) {
 						}
 					}
 				}
+				// … or the handshake is a pipeline: the caller runs the set-up helper and then a helper that
+				// holds the transmission loop; the handshake function is the latter, the "registration" the
+				// former's call (it has to precede the loop helper's call, see R5)
+				for _, g := range c.P.LibraryFuncs() {
+					if pkgOf(g).Path() != pkgSM {
+						continue
+					}
+					for _, cj := range flow.CallInstrs(g) {
+						if flow.StaticCallee(cj) != f {
+							continue
+						}
+						for _, ck := range flow.CallInstrs(g) {
+							if h := flow.StaticCallee(ck); h != nil && h != f && c.P.IsLibrary(h) && pkgOf(h).Path() == pkgSM && c.findRetransLoop(h) != nil {
+								return h, cj
+							}
+						}
+					}
+				}
 				return f, ci
 			}
 		}
@@ -142,12 +160,25 @@ func runC12(c *Ctx) {
 		if in, ok := recv.(ssa.Instruction); ok && rl.loop.Blocks[in.Block()] {
 			inLoop = true
 		}
-		_, isCall := flow.Peel(recv).(*ssa.Call)
+		_, isCall := flow.Peel(c.up(recv)).(*ssa.Call)
 		r.Check(!inLoop && isCall, "R3", key, c.pos(rl.write), "the message written in the loop is built once before the loop (same CER, same identifiers, retransmitted)", "the CER is rebuilt inside the retransmission loop (each retransmission carries new identifiers, so an answer to an earlier transmission no longer matches) or is not the result of the CER builder")
 	}
 
 	// ---- R5 ----
-	r.Check(flow.Dominates(reg, rl.write), "R5", fname(hs)+":cea-registered-before-write", c.pos(reg), "the CEA handler registration dominates the first write", "the CER can be written before the CEA handler is registered: a fast answer is dispatched to nobody")
+	regFirst := flow.Dominates(reg, rl.write)
+	if reg.Parent() != hs {
+		// pipeline form: the registration (helper call) precedes every call of the loop helper in their caller
+		regFirst = false
+		for _, cs := range c.librarySites(hs) {
+			if cs.Parent() == reg.Parent() {
+				regFirst = flow.Dominates(reg, cs)
+				if !regFirst {
+					break
+				}
+			}
+		}
+	}
+	r.Check(regFirst, "R5", fname(hs)+":cea-registered-before-write", c.pos(reg), "the CEA handler registration dominates the first write", "the CER can be written before the CEA handler is registered: a fast answer is dispatched to nobody")
 
 	// ---- R4 ----
 	c.c12CER(hs, rl)
@@ -166,7 +197,7 @@ func runC12(c *Ctx) {
 // c12CER: content of the CER builder.
 func (c *Ctx) c12CER(hs *ssa.Function, rl *retransLoop) {
 	r := c.R
-	call, ok := flow.Peel(rl.write.Call.Args[0]).(*ssa.Call)
+	call, ok := flow.Peel(c.up(rl.write.Call.Args[0])).(*ssa.Call)
 	if !ok {
 		r.Undecided("R4", fname(hs)+":cer-builder", c.pos(rl.write), "the written message is not the result of a builder call")
 		return
@@ -467,10 +498,34 @@ func (c *Ctx) closeOnceProtected(f *ssa.Function, cl *ssa.Call) bool {
 	if !tested {
 		return false
 	}
-	for _, ci := range flow.CallInstrs(f) {
+	setsPeer := func(ci ssa.CallInstruction) bool {
 		com := ci.Common()
-		if com.IsInvoke() && com.Method.Name() == "SetContext" && flow.Dominates(ci, cl) {
-			if a, ok := com.Args[0].(*ssa.Call); ok && flow.IsCallTo(a, pkgSMPeer, "", "NewContext") {
+		if com.IsInvoke() && com.Method.Name() == "SetContext" {
+			a, ok := com.Args[0].(*ssa.Call)
+			return ok && flow.IsCallTo(a, pkgSMPeer, "", "NewContext")
+		}
+		return false
+	}
+	for _, ci := range flow.CallInstrs(f) {
+		if !flow.Dominates(ci, cl) {
+			continue
+		}
+		if setsPeer(ci) {
+			return true
+		}
+		// … or a helper of the package that does so on every path
+		if g := flow.StaticCallee(ci); g != nil && g.Blocks != nil && c.P.IsLibrary(g) && pkgOf(g).Path() == pkgSM {
+			isSet := func(in ssa.Instruction) bool {
+				cj, ok := in.(ssa.CallInstruction)
+				return ok && setsPeer(cj)
+			}
+			has := false
+			for _, cj := range flow.CallInstrs(g) {
+				if setsPeer(cj) {
+					has = true
+				}
+			}
+			if has && flow.PathAvoiding(g, nil, flow.IsReturn, isSet) == nil {
 				return true
 			}
 		}
@@ -556,6 +611,63 @@ func (c *Ctx) sendAfterClose(f *ssa.Function) (string, ssa.Instruction) {
 // function (armed per read / per write, re-armed by the next one), or is taken off again: for every direction a
 // non-per-operation Set*Deadline arms, the library must contain a zero-time Set*Deadline covering that direction.
 // (A dial timeout that stays armed makes the established connection fail later with i/o timeout.)
+// isConnIO: ci performs transport I/O — a Read / Write / Flush-like invoke or call, ReadMessage, or a library
+// function that (transitively, bounded) does.
+func (c *Ctx) isConnIO(ci ssa.CallInstruction, depth int) bool {
+	com := ci.Common()
+	if com.IsInvoke() {
+		switch com.Method.Name() {
+		case "Read", "Write", "Flush", "ReadAtLeast", "WriteStream", "ReadStream":
+			return true
+		}
+		return false
+	}
+	g := flow.StaticCallee(ci)
+	if g == nil {
+		return false
+	}
+	switch g.Name() {
+	case "ReadMessage", "Flush", "Write", "ReadFull", "ReadAtLeast":
+		return true
+	}
+	if depth >= 3 || g.Blocks == nil || !c.P.IsLibrary(g) {
+		return false
+	}
+	for _, cj := range flow.CallInstrs(g) {
+		if c.isConnIO(cj, depth+1) {
+			return true
+		}
+	}
+	return false
+}
+
+// ioFollows: some transport I/O is reachable after instruction at in f; if none is and f is a helper, the same
+// must hold after the call of f at every library call site.
+func (c *Ctx) ioFollows(f *ssa.Function, at ssa.Instruction, depth int) bool {
+	for _, cj := range flow.CallInstrs(f) {
+		cj := cj
+		if ssa.Instruction(cj) == at || !c.isConnIO(cj, 0) {
+			continue
+		}
+		if flow.PathAvoiding(f, at, func(x ssa.Instruction) bool { return x == ssa.Instruction(cj) }, nil) != nil {
+			return true
+		}
+	}
+	if depth >= 2 {
+		return false
+	}
+	sites := c.librarySites(f)
+	if len(sites) == 0 {
+		return false
+	}
+	for _, cs := range sites {
+		if !c.ioFollows(cs.Parent(), cs, depth+1) {
+			return false
+		}
+	}
+	return true
+}
+
 func (c *Ctx) deadlineDiscipline(rule string) {
 	r := c.R
 	type site struct {
@@ -620,24 +732,9 @@ func (c *Ctx) deadlineDiscipline(rule string) {
 		n++
 		f := s.ci.Parent()
 		key := fmt.Sprintf("%s:%s-armed", fname(f), calleeLabel(s.ci))
-		// per operation: an I/O call on the connection follows in the same function
-		perOp := false
-		for _, cj := range flow.CallInstrs(f) {
-			cj := cj
-			if cj == s.ci || flow.PathAvoiding(f, s.ci, func(x ssa.Instruction) bool { return x == ssa.Instruction(cj) }, nil) == nil {
-				continue
-			}
-			com := cj.Common()
-			if com.IsInvoke() {
-				switch com.Method.Name() {
-				case "Read", "Write", "Flush", "ReadAtLeast", "WriteStream":
-					perOp = true
-				}
-			}
-			if g := flow.StaticCallee(cj); g != nil && (g.Name() == "ReadMessage" || g.Name() == "Flush" || g.Name() == "Write") {
-				perOp = true
-			}
-		}
+		// per operation: an I/O call on the connection follows in the same function — or, when the arming sits
+		// in a small helper, after the helper's call at every library call site
+		perOp := c.ioFollows(f, s.ci, 0)
 		if perOp {
 			r.Ok(rule, key, c.pos(s.ci), "armed immediately before the operation it bounds (re-armed by the next one)")
 			continue
